@@ -4,17 +4,42 @@ use serde_json::{json, Value};
 use std::collections::BTreeSet;
 use surf_n_term::automata::{DFA, NFA};
 
-fn build(e: &Value, map: &[u8]) -> NFA<usize> {
+/// The combinators are n-ary in the library; the same expression is built along three routes:
+/// 0 = binary calls, 1 = every operand wrapped in a one-alternative choice, 2 = nested seq / alt
+/// flattened into one n-ary call and every operand wrapped in a one-element sequence.
+fn build(e: &Value, map: &[u8], route: usize) -> NFA<usize> {
+    let wrap = |n: NFA<usize>| match route {
+        1 => NFA::choice([n]),
+        2 => NFA::sequence([n]),
+        _ => n,
+    };
+    fn flat<'a>(e: &'a Value, op: &str, out: &mut Vec<&'a Value>) {
+        if e["op"].as_str() == Some(op) {
+            flat(&e["a"], op, out);
+            flat(&e["b"], op, out);
+        } else {
+            out.push(e);
+        }
+    }
     match e["op"].as_str().unwrap() {
         "lit" => {
             let bytes: Vec<u8> = e["s"].as_array().unwrap().iter().map(|x| map[x.as_u64().unwrap() as usize - 1]).collect();
             NFA::sequence(bytes.into_iter().map(|b| NFA::predicate(move |x| x == b)))
         }
-        "seq" => NFA::sequence([build(&e["a"], map), build(&e["b"], map)]),
-        "alt" => NFA::choice([build(&e["a"], map), build(&e["b"], map)]),
-        "opt" => build(&e["a"], map).optional(),
-        "some" => build(&e["a"], map).some(),
-        "many" => build(&e["a"], map).many(),
+        op @ ("seq" | "alt") => {
+            let mut parts = Vec::new();
+            if route == 2 {
+                flat(e, op, &mut parts);
+            } else {
+                parts.push(&e["a"]);
+                parts.push(&e["b"]);
+            }
+            let built: Vec<NFA<usize>> = parts.into_iter().map(|p| wrap(build(p, map, route))).collect();
+            if op == "seq" { NFA::sequence(built) } else { NFA::choice(built) }
+        }
+        "opt" => wrap(build(&e["a"], map, route)).optional(),
+        "some" => wrap(build(&e["a"], map, route)).some(),
+        "many" => wrap(build(&e["a"], map, route)).many(),
         other => panic!("unknown op {other}"),
     }
 }
@@ -78,20 +103,20 @@ pub fn replay(args: &[String]) {
     let mut out = Out::new();
     let mut id = 0u64;
     for v in stdin_records() {
-        for map in maps.iter() {
+        for (route, map) in maps.iter().enumerate() {
             let tagged = v["tagged"].as_bool().unwrap();
             let res = guarded(|| {
                 let nfa = if tagged {
-                    NFA::choice([build(&v["e"], map).tag_stop_state(1usize), build(&v["f"], map).tag_stop_state(2usize)])
+                    NFA::choice([build(&v["e"], map, route).tag_stop_state(1usize), build(&v["f"], map, route).tag_stop_state(2usize)])
                 } else {
-                    build(&v["e"], map)
+                    build(&v["e"], map, route)
                 };
                 let dfa = nfa.compile();
                 walk(&dfa, map, &words)
             });
             let rec = match res {
-                Ok((res, stray)) => json!({"id": id, "e": v["e"], "f": v["f"], "tagged": tagged, "map": map, "outcome": "ok", "stray": stray, "res": res}),
-                Err(m) => json!({"id": id, "e": v["e"], "f": v["f"], "tagged": tagged, "map": map, "outcome": format!("panic: {m}"), "stray": 0, "res": []}),
+                Ok((res, stray)) => json!({"id": id, "e": v["e"], "f": v["f"], "tagged": tagged, "map": map, "route": route, "outcome": "ok", "stray": stray, "res": res}),
+                Err(m) => json!({"id": id, "e": v["e"], "f": v["f"], "tagged": tagged, "map": map, "route": route, "outcome": format!("panic: {m}"), "stray": 0, "res": []}),
             };
             out.rec(&rec);
             id += 1;
